@@ -88,4 +88,19 @@ theorem elabPkgAll_ok (p : Pkg) (T : Types) (env : Env)
   · intro k nw we hk hwe
     exact (All2_get hallW k nw we hk hwe).2
 
+/-- a world body of one item is one step -/
+theorem worldItems_single (st : St) (wi : WItem) (wd : World) : worldItems st [wi] wd = worldStep st wi wd := by
+  rw [worldItems_cons]
+  cases worldStep st wi wd with
+  | error e => rfl
+  | ok si =>
+    obtain ⟨st1, wd1⟩ := si
+    simp [worldItems]
+
+/-- first-occurrence numbering does not see the renaming: the executable form of "equal up to an
+injective renaming of the resource leaves" -/
+theorem canon_of_ren {ρ : Nat → Res} (hinj : ∀ a b, (ρ a).idx = (ρ b).idx → a = b) {x : Option Tree} {t : Tree}
+    (h : x = some (renT ρ t)) : x.map Wac.Spec.Decode.canon = some (Wac.Spec.Decode.canon t) := by
+  rw [h, Option.map_some, canon_ren hinj]
+
 end Wac.Elab
